@@ -260,7 +260,38 @@ def check_memory(case, ctx):
         _report(ctx, "write-read-write", ref.chart_diff(wchart2, wchart, time_lt=1.0))
 
 
+# --------------------------------------------------------------------------- #
+# sub-check: the real .qua files shipped with the repository (read direction, then one write/read)
+# --------------------------------------------------------------------------- #
+BUNDLED_DIR = os.path.join(os.environ.get("VERIF_REPO", "/repo"), "rsc", "maps", "qua")
+
+
+def bundled_cases(tier):
+    for fn in sorted(os.listdir(BUNDLED_DIR)) if os.path.isdir(BUNDLED_DIR) else []:
+        if fn.endswith(".qua"):
+            yield dict(file=fn)
+
+
+def check_bundled(case, ctx):
+    from reamber.quaver.QuaMap import QuaMap
+
+    path = os.path.join(BUNDLED_DIR, case["file"])
+    with open(path, encoding="utf8") as fh:
+        text = fh.read()
+    exp = ref.parse(text)
+    ctx.label("bundled=" + case["file"])
+    ctx.nt(bool(exp["holds"]) and bool(exp["svs"]))
+    m = ctx.call("read_file", QuaMap.read_file, path)
+    got = ctx.call("snapshot", snapshot, m)
+    _report(ctx, "bundled:read", ref.chart_diff(got, exp))
+    if ctx.failures:
+        ctx.stop()
+    w = ctx.call("write", m.write)
+    _check_written(ctx, "bundled:write", w, got)
+
+
 SUBS = [
+    Sub("bundled", check_bundled, enumerate=bundled_cases, shards={"quick": 2, "thorough": 2}),
     Sub("read", check_read, strategy=read_case, examples={"quick": 200, "thorough": 1200}, shards={"quick": 8, "thorough": 16}, fuzz={"thorough": 150}),
     Sub("memory", check_memory, strategy=memory_case, examples={"quick": 200, "thorough": 1200}, shards={"quick": 8, "thorough": 16}),
 ]
